@@ -159,6 +159,10 @@ func checkGateManufacture(p *Program, r *Report, rule string, gates map[*types.T
 				if recv := g.Signature.Recv(); recv != nil && isSafe(recv.Type()) && g.Pkg != nil && strings.HasPrefix(g.Pkg.Pkg.Path(), modulePath) {
 					return true, "content of " + types.TypeString(recv.Type(), shortQual)
 				}
+				// an accessor that hands its only parameter back converted to string (c.str()): what the parameter is
+				if identityAccessor(g) && len(c.Args) == 1 {
+					return classify(c.Args[0], fn, depth+1)
+				}
 				return false, "result of " + fnName(g)
 			}
 			// a call through a function value
@@ -371,4 +375,32 @@ func checkExportedTreeOnlyTested(p *Program, r *Report, rule string) {
 	if n == 0 {
 		r.OK(rule, "template#reads-exported-tree", "", "the exported Tree field is never read by the library")
 	}
+}
+
+// identityAccessor: g has one parameter (its receiver, say) and returns it, at most converted between string types.
+func identityAccessor(g *ssa.Function) bool {
+	if g == nil || g.Blocks == nil || len(g.Params) != 1 || g.Pkg == nil || !strings.HasPrefix(g.Pkg.Pkg.Path(), modulePath) {
+		return false
+	}
+	rets := Returns(g)
+	if len(rets) != 1 || len(rets[0].Results) != 1 {
+		return false
+	}
+	v := rets[0].Results[0]
+	for i := 0; i < 3; i++ {
+		switch x := v.(type) {
+		case *ssa.ChangeType:
+			if isStringish(x.X.Type()) && isStringish(x.Type()) {
+				v = x.X
+				continue
+			}
+		case *ssa.Convert:
+			if isStringish(x.X.Type()) && isStringish(x.Type()) {
+				v = x.X
+				continue
+			}
+		}
+		break
+	}
+	return v == ssa.Value(g.Params[0])
 }
